@@ -12,7 +12,7 @@ def CHOOSE(*args):
     if (len(args) < 2):
         return error.NOT_AVAILABLE
 
-    index = args[0]
+    index = utils.whole(args[0])
     if (index < 1 or index > 254):
         return error.VALUE
 
@@ -83,12 +83,12 @@ def INDEX(arr, row_num=DEFAULT, column_num=DEFAULT, area_num=DEFAULT):
     bidimensional = isinstance(arr[0], list)
 
     if row_num is not DEFAULT:
-        row_num = utils.parse_number(row_num)
+        row_num = utils.whole(utils.parse_number(row_num))
         if isinstance(row_num, error.XLError):
             return row_num
 
     if column_num is not DEFAULT:
-        column_num = utils.parse_number(column_num)
+        column_num = utils.whole(utils.parse_number(column_num))
         if isinstance(column_num, error.XLError):
             return column_num
     if (row_num is not DEFAULT and row_num < 0) or (column_num is not DEFAULT and column_num < 0):
